@@ -13,7 +13,8 @@ Insts == {"m", "a", "b", "c", "d", "p", "u", "v"}
    \* module-level, make(10), make(20), nested make2(30), make3(): middle function shadows a captured name,
    \* p: the captured variable is a parameter (make4(40)); u, v: closures made in iterations 0 and 1 of a loop
    \* body over a body-local variable (each iteration has its own variable)
-Fns == {"g", "i", "l", "t"}         \* reader, modify-writer, local-writer, typed local-writer (`x: int = x + 100`)
+Fns == {"g", "i", "l", "t", "o"}    \* reader, modify-writer, local-writer, typed local-writer (`x: int = x + 100`),
+                                    \* reader whose only use of the captured name is the fallback of an `or`
 Vias == {"direct", "shadow", "plain"}
 
 Ops == [op : {"call"}, inst : Insts, f : Fns, via : Vias]
@@ -29,12 +30,13 @@ Reader(v) == Fn("rd", <<>>, "int", <<Ret(V(v))>>)
 Writer(v) == Fn("wr", <<>>, "int", <<Modify(v, Bin("+", V(v), I(1))), Ret(V(v))>>)
 Local(v) == Fn("lo", <<>>, "int", <<Let(v, Bin("+", V(v), I(100))), Ret(V(v))>>)
 TLocal(v) == Fn("tl", <<>>, "int", <<LetT(v, "int", Bin("+", V(v), I(100))), Ret(V(v))>>)
-Three == <<Let("g", Reader("x")), Let("i", Writer("x")), Let("l", Local("x")), Let("t", TLocal("x")),
-           Ret(List(<<V("g"), V("i"), V("l"), V("t")>>))>>
+OrReader(v) == Fn("orr", <<>>, "int", <<LetT("nn", "int?", Nil), Ret(Or(V("nn"), V(v)))>>)
+Three == <<Let("g", Reader("x")), Let("i", Writer("x")), Let("l", Local("x")), Let("t", TLocal("x")), Let("o", OrReader("x")),
+           Ret(List(<<V("g"), V("i"), V("l"), V("t"), V("o")>>))>>
 
 Prologue ==
     <<Let("x", I(10)),
-      Let("mg", Reader("x")), Let("mi", Writer("x")), Let("ml", Local("x")), Let("mt", TLocal("x")),
+      Let("mg", Reader("x")), Let("mi", Writer("x")), Let("ml", Local("x")), Let("mt", TLocal("x")), Let("mo", OrReader("x")),
       Let("pure", Fn("pure", <<>>, "int", <<Ret(I(5))>>)),
       Let("make", Fn("make", <<P("start", "int")>>, "[" \o FT \o "...]",
                      <<Let("x", V("start"))>> \o Three)),
@@ -51,24 +53,25 @@ Prologue ==
                       <<LetT("out", "[" \o FT \o "...]", List(<<>>)),
                         From(I(0), I(2), FALSE, <<>>, "n",
                              <<Let("x", Bin("+", Bin("*", V("n"), I(100)), I(70))),
-                               Let("g", Reader("x")), Let("i", Writer("x")), Let("l", Local("x")), Let("t", TLocal("x")),
+                               Let("g", Reader("x")), Let("i", Writer("x")), Let("l", Local("x")), Let("t", TLocal("x")), Let("o", OrReader("x")),
                                ExprS(MCall(V("out"), "push", <<V("g")>>)), ExprS(MCall(V("out"), "push", <<V("i")>>)),
-                               ExprS(MCall(V("out"), "push", <<V("l")>>)), ExprS(MCall(V("out"), "push", <<V("t")>>))>>),
+                               ExprS(MCall(V("out"), "push", <<V("l")>>)), ExprS(MCall(V("out"), "push", <<V("t")>>)),
+                               ExprS(MCall(V("out"), "push", <<V("o")>>))>>),
                         Ret(V("out"))>>)),
       Let("use", Fn("use", <<P("f", FT)>>, "int", <<Let("x", I(99)), Ret(Call(V("f"), <<>>))>>)),
       Let("use2", Fn("use2", <<P("f", FT)>>, "int", <<Ret(Call(V("f"), <<>>))>>)),
       Let("a", Call(V("make"), <<I(10)>>)), Let("b", Call(V("make"), <<I(20)>>)),
       Let("c", Call(V("make2"), <<I(30)>>)),
-      Let("ag", Idx(V("a"), I(0))), Let("ai", Idx(V("a"), I(1))), Let("al", Idx(V("a"), I(2))), Let("at", Idx(V("a"), I(3))),
-      Let("bg", Idx(V("b"), I(0))), Let("bi", Idx(V("b"), I(1))), Let("bl", Idx(V("b"), I(2))), Let("bt", Idx(V("b"), I(3))),
-      Let("cg", Idx(V("c"), I(0))), Let("ci", Idx(V("c"), I(1))), Let("cl", Idx(V("c"), I(2))), Let("ct", Idx(V("c"), I(3))),
+      Let("ag", Idx(V("a"), I(0))), Let("ai", Idx(V("a"), I(1))), Let("al", Idx(V("a"), I(2))), Let("at", Idx(V("a"), I(3))), Let("ao", Idx(V("a"), I(4))),
+      Let("bg", Idx(V("b"), I(0))), Let("bi", Idx(V("b"), I(1))), Let("bl", Idx(V("b"), I(2))), Let("bt", Idx(V("b"), I(3))), Let("bo", Idx(V("b"), I(4))),
+      Let("cg", Idx(V("c"), I(0))), Let("ci", Idx(V("c"), I(1))), Let("cl", Idx(V("c"), I(2))), Let("ct", Idx(V("c"), I(3))), Let("co", Idx(V("c"), I(4))),
       Let("p", Call(V("make4"), <<I(40)>>)),
-      Let("pg", Idx(V("p"), I(0))), Let("pi", Idx(V("p"), I(1))), Let("pl", Idx(V("p"), I(2))), Let("pt", Idx(V("p"), I(3))),
+      Let("pg", Idx(V("p"), I(0))), Let("pi", Idx(V("p"), I(1))), Let("pl", Idx(V("p"), I(2))), Let("pt", Idx(V("p"), I(3))), Let("po", Idx(V("p"), I(4))),
       Let("w", Call(V("make5"), <<>>)),
-      Let("ug", Idx(V("w"), I(0))), Let("ui", Idx(V("w"), I(1))), Let("ul", Idx(V("w"), I(2))), Let("ut", Idx(V("w"), I(3))),
-      Let("vg", Idx(V("w"), I(4))), Let("vi", Idx(V("w"), I(5))), Let("vl", Idx(V("w"), I(6))), Let("vt", Idx(V("w"), I(7))),
+      Let("ug", Idx(V("w"), I(0))), Let("ui", Idx(V("w"), I(1))), Let("ul", Idx(V("w"), I(2))), Let("ut", Idx(V("w"), I(3))), Let("uo", Idx(V("w"), I(4))),
+      Let("vg", Idx(V("w"), I(5))), Let("vi", Idx(V("w"), I(6))), Let("vl", Idx(V("w"), I(7))), Let("vt", Idx(V("w"), I(8))), Let("vo", Idx(V("w"), I(9))),
       Let("d", Call(V("make3"), <<>>)),
-      Let("dg", Idx(V("d"), I(0))), Let("di", Idx(V("d"), I(1))), Let("dl", Idx(V("d"), I(2))), Let("dt", Idx(V("d"), I(3)))>>
+      Let("dg", Idx(V("d"), I(0))), Let("di", Idx(V("d"), I(1))), Let("dl", Idx(V("d"), I(2))), Let("dt", Idx(V("d"), I(3))), Let("do", Idx(V("d"), I(4)))>>
 
 FnVar(o) == V(o.inst \o o.f)
 OpStmt(o) ==
